@@ -205,6 +205,19 @@ def bool_ordering_compare(prog):
     return any(e and e[0] == "bin" and e[1] in ("<", "<=", ">", ">=") and (is_bool(e[2]) or is_bool(e[3])) for e in prog_exprs(prog))
 
 
+def operand_class_gap(prog):
+    """The shapes of typechecker-operand-class-gaps that end in a backend failure: ordering on bools, % with a float operand."""
+    def is_float(e):
+        return isinstance(e, tuple) and e and (e[0] == "float" or (e[0] == "bi" and e[1] in ("cast_float", "sqrt", "floor", "ceil", "round")) or
+                                               (e[0] == "bin" and e[1] in ("+", "-", "*", "/") and (is_float(e[2]) or is_float(e[3]))))
+    names = _name_types(prog)
+    def floaty(e):
+        return is_float(e) or (isinstance(e, tuple) and e and e[0] == "var" and names.get(e[1]) == "float")
+    if any(e and e[0] == "bin" and e[1] == "%" and (floaty(e[2]) or floaty(e[3])) for e in prog_exprs(prog)):
+        return True
+    return bool_ordering_compare(prog)
+
+
 ALL["bool_ordering_compare"] = bool_ordering_compare
 ALL["string_ordering_compare"] = string_ordering_compare
 ALL["fn_let_from_non_function"] = fn_let_from_non_function
@@ -300,3 +313,6 @@ def array_push_used(prog):
 
 
 ALL["array_push_used"] = array_push_used
+
+
+ALL["operand_class_gap"] = operand_class_gap
